@@ -5,18 +5,36 @@ DRIVER = "C37"
 GENERATED = []
 SOURCES = ["src/allmydata/util/spans.py"]
 DESIGN_REF = "DESIGN.md §2 C37"
-TECHNIQUE = "Lean 4 theorems over an executable model of Spans/DataSpans; differential correspondence of op histories (internal span lists and every query) against util/spans.py"
-LEVEL_TEXT = ("Set/partial-map refinement theorems proved in Lean for all span lists and op histories; the model is tied "
-              "to util/spans.py by comparing the exact internal lists after every operation of seeded histories.")
-LEVEL_NOTE = "Lean kernel + standard axioms; model hand-written, tied by correspondence; Python ints modelled as Nat (the code asserts start >= 0)."
-RULE = ("seeded histories of add/remove/contains/len/intersect over offsets 0..300 against allmydata.util.spans; a case is one "
-        "operation; distinct = distinct (state-before, op) pairs; non-trivial = the state before the op is non-empty")
-TRUSTED = ["lean/Tahoe/Spans/Model.lean is a hand transcription of util/spans.py (insert+sort modelled as ordered insert)"]
-ASSUMPTIONS = ["offsets and lengths are non-negative ints (asserted by the code)"]
+TECHNIQUE = ("Lean 4 theorems over an executable model of Spans/DataSpans (invariant preservation, refinement to a set of "
+             "integers / a partial map offset->byte, histories of any length); differential correspondence of op histories "
+             "(exact internal span/chunk lists after every operation and every query result) against util/spans.py; "
+             "implementation-side monitor against a Python set / dict reference")
+LEVEL_TEXT = ("Set and partial-map refinement theorems proved in Lean for all span lists, chunk lists and op histories; the "
+              "model is tied to util/spans.py by comparing the exact internal lists (_spans, spans) after every operation "
+              "of seeded histories, and every query result (contains, len, get, pop, get_spans).")
+LEVEL_NOTE = ("Lean kernel + standard axioms; model hand-written, tied by correspondence; Python ints modelled as Nat "
+              "(Spans asserts start >= 0; DataSpans offsets are share offsets).")
+RULE = ("seeded histories of Spans add/remove/contains/len/&/+/-/+=/-= and DataSpans add/remove/get/pop/len/get_spans over "
+        "offsets 0..300 (longer/wider in thorough) against allmydata.util.spans; a case is one operation; distinct = "
+        "distinct (kind, state-before, op) triples; non-trivial = the state before the op is non-empty")
+TRUSTED = ["lean/Tahoe/Spans/Model.lean and DataModel.lean are hand transcriptions of util/spans.py (insert+sort modelled "
+           "as ordered insert; index loops as structural recursion over the list suffix; DataSpans.add case A followed by "
+           "the re-iteration at the same chunk is inlined)"]
+ASSUMPTIONS = ["offsets and lengths are non-negative ints (asserted by Spans.add/remove; DataSpans is only called with share offsets)",
+               "DataSpans.get/pop with length 0 is outside the statement (result compared with the model only)"]
 
+from common import hx
+
+
+# ----------------------------------------------------------------------------- Spans
 
 def show(spans):
     return ",".join("%d+%d" % (s, l) for (s, l) in spans) or "-"
+
+
+def gen_pairs(rng, maxoff):
+    k = rng.randrange(0, 4)
+    return [(rng.randrange(maxoff), rng.randrange(1, 60)) for _ in range(k)]
 
 
 def gen_history(rng, n, maxoff):
@@ -25,21 +43,46 @@ def gen_history(rng, n, maxoff):
         r = rng.random()
         a = rng.randrange(maxoff)
         l = rng.choice([1, 1, 2, 3, 5, 8, 13, 40]) if rng.random() < 0.8 else rng.randrange(1, maxoff)
-        if r < 0.35:
+        if r < 0.30:
             ops.append(("a", a, l))
-        elif r < 0.6:
+        elif r < 0.52:
             ops.append(("r", a, l))
-        elif r < 0.8:
+        elif r < 0.70:
             ops.append(("c", a, l))
-        elif r < 0.9:
+        elif r < 0.78:
             ops.append(("l",))
+        elif r < 0.88:
+            ops.append(("i", gen_pairs(rng, maxoff), rng.randrange(4)))
+        elif r < 0.94:
+            ops.append(("u", gen_pairs(rng, maxoff), rng.randrange(4), rng.choice(["+", "+="])))
         else:
-            k = rng.randrange(0, 4)
-            other = []
-            for _ in range(k):
-                other.append((rng.randrange(maxoff), rng.randrange(1, 60)))
-            ops.append(("i", other))
+            ops.append(("m", gen_pairs(rng, maxoff), rng.randrange(4), rng.choice(["-", "-="])))
     return ops
+
+
+def build_other(pairs, form):
+    """Build the `other` operand through one of the constructor forms of Spans."""
+    from allmydata.util.spans import Spans
+    if form == 0 or not pairs:
+        o = Spans()
+        for (a, l) in pairs:
+            o.add(a, l)
+    elif form == 1:
+        o = Spans(list(pairs))                       # list of (start, length) pairs
+    elif form == 2:
+        o = Spans(pairs[0][0], pairs[0][1])          # Spans(start, length)
+        for (a, l) in pairs[1:]:
+            o.add(a, l)
+    else:
+        o = Spans(Spans(list(pairs)))                # copy constructor
+    return o
+
+
+def set_of(pairs):
+    r = set()
+    for (a, l) in pairs:
+        r |= set(range(a, a + l))
+    return r
 
 
 def run_impl(ctx, ops):
@@ -48,49 +91,66 @@ def run_impl(ctx, ops):
     s = Spans()
     ref = set()
     outs = []
+    case = {"kind": "spans", "ops": ops}
     for op in ops:
         before = show(s._spans)
-        if op[0] == "a":
-            s.add(op[1], op[2]); ref |= set(range(op[1], op[1] + op[2])); outs.append(show(s._spans))
-        elif op[0] == "r":
+        k = op[0]
+        if k == "a":
+            r = s.add(op[1], op[2]); ref |= set(range(op[1], op[1] + op[2])); outs.append(show(s._spans))
+            if r is not s:
+                ctx.violation("Spans.add does not return self", case, "spans-add-return")
+        elif k == "r":
             s.remove(op[1], op[2]); ref -= set(range(op[1], op[1] + op[2])); outs.append(show(s._spans))
-        elif op[0] == "c":
+        elif k == "c":
             got = (op[1], op[2]) in s
             want = all(x in ref for x in range(op[1], op[1] + op[2]))
             if got != want:
-                ctx.violation("Spans.__contains__ differs from the set of integers", {"ops": ops}, "spans-contains")
+                ctx.violation("Spans.__contains__ differs from the set of integers", case, "spans-contains")
             outs.append("T" if got else "F")
-        elif op[0] == "l":
+        elif k == "l":
             outs.append(str(s.len()))
             if s.len() != len(ref):
-                ctx.violation("Spans.len differs from the set of integers", {"ops": ops}, "spans-len")
-        elif op[0] == "i":
-            o = Spans()
-            oref = set()
-            for (a, l) in op[1]:
-                o.add(a, l); oref |= set(range(a, a + l))
-            s = s & o
-            ref &= oref
+                ctx.violation("Spans.len differs from the set of integers", case, "spans-len")
+            if bool(s) != bool(ref):
+                ctx.violation("bool(Spans) differs from non-emptiness of the set", case, "spans-bool")
+        elif k in "ium":
+            o = build_other(op[1], op[2])
+            oref = set_of(op[1])
+            if set(o.each()) != oref:
+                ctx.violation("Spans constructor form %d differs from the set of integers" % op[2], case, "spans-constructor")
+            o_before = list(o._spans)
+            s_before = list(s._spans)
+            if k == "i":
+                res = s & o
+                ref = ref & oref
+                inplace = False
+            elif k == "u":
+                if op[3] == "+":
+                    res = s + o; inplace = False
+                else:
+                    res = s; res += o; inplace = True
+                ref = ref | oref
+            else:
+                if op[3] == "-":
+                    res = s - o; inplace = False
+                else:
+                    res = s; res -= o; inplace = True
+                ref = ref - oref
+            if list(o._spans) != o_before:
+                ctx.violation("binary Spans operator mutated its right operand", case, "spans-operand-mutated")
+            if not inplace and list(s._spans) != s_before:
+                ctx.violation("non-in-place Spans operator mutated its left operand", case, "spans-operand-mutated")
+            if inplace and res is not s:
+                ctx.violation("in-place Spans operator returned a new object", case, "spans-inplace-identity")
+            s = res
             outs.append(show(s._spans))
         if set(s.each()) != ref:
-            ctx.violation("Spans content differs from the set-of-integers reference", {"ops": ops}, "spans-content")
-        ctx.case((before, repr(op)) if before != "-" else None)
-        ctx.count("op:" + op[0])
+            ctx.violation("Spans content differs from the set-of-integers reference", case, "spans-content-" + k)
+        if list(s) != list(s._spans):
+            ctx.violation("iter(Spans) differs from its span list", case, "spans-iter")
+        ctx.case(("S", before, repr(op)) if before != "-" else None)
+        ctx.count("spans-op:" + k)
     return ";".join(outs)
-
-
-def line_of(ops):
-    toks = []
-    for op in ops:
-        if op[0] in "arc":
-            toks.append("%s:%d:%d" % op)
-        elif op[0] == "l":
-            toks.append("l")
-        else:
-            o = []
-            # the driver receives `other` already normalised by the model's own add (as Spans(other) would)
-            toks.append("i:" + (",".join("%d+%d" % x for x in normalise(op[1])) or "-"))
-    return "spans " + " ".join(toks)
 
 
 def normalise(pairs):
@@ -101,16 +161,200 @@ def normalise(pairs):
     return list(o._spans)
 
 
+def line_of(ops):
+    toks = []
+    for op in ops:
+        if op[0] in "arc":
+            toks.append("%s:%d:%d" % tuple(op[:3]))
+        elif op[0] == "l":
+            toks.append("l")
+        else:
+            # the driver receives `other` already normalised (what iterating a Spans object yields)
+            toks.append(op[0] + ":" + (",".join("%d+%d" % x for x in normalise(op[1])) or "-"))
+    return "spans " + " ".join(toks)
+
+
+# ----------------------------------------------------------------------------- DataSpans
+
+def show_chunks(chunks):
+    return ",".join("%d=%s" % (s, hx(d)) for (s, d) in chunks) or "-"
+
+
+def show_opt(d):
+    return "N" if d is None else hx(d)
+
+
+def gen_dhistory(rng, n, maxoff):
+    ops = []
+    for _ in range(n):
+        r = rng.random()
+        a = rng.randrange(maxoff)
+        l = rng.choice([1, 1, 2, 3, 5, 8, 13, 40]) if rng.random() < 0.8 else rng.randrange(1, maxoff)
+        if r < 0.36:
+            if rng.random() < 0.03:
+                l = 0
+            ops.append(("a", a, bytes(rng.randrange(256) for _ in range(l)).hex()))
+        elif r < 0.54:
+            ops.append(("r", a, l))
+        elif r < 0.72:
+            ops.append(("g", a, 0 if rng.random() < 0.04 else l))
+        elif r < 0.86:
+            ops.append(("p", a, 0 if rng.random() < 0.04 else l))
+        elif r < 0.93:
+            ops.append(("l",))
+        else:
+            ops.append(("s",))
+    return ops
+
+
+def chunks_dict(chunks):
+    d = {}
+    n = 0
+    for (start, data) in chunks:
+        for i, b in enumerate(data):
+            d[start + i] = b
+            n += 1
+    return d, n
+
+
+def run_dimpl(ctx, ops):
+    """Execute on the real DataSpans; evaluate the property against a dict offset -> byte."""
+    from allmydata.util.spans import DataSpans
+    ds = DataSpans()
+    ref = {}
+    outs = []
+    case = {"kind": "dspans", "ops": ops}
+
+    def want_get(a, l):
+        if all((a + i) in ref for i in range(l)):
+            return bytes(ref[a + i] for i in range(l))
+        return None
+
+    for op in ops:
+        before = show_chunks(ds.spans)
+        k = op[0]
+        if k == "a":
+            data = bytes.fromhex(op[2])
+            ds.add(op[1], data)
+            for i, b in enumerate(data):
+                ref[op[1] + i] = b
+            outs.append(show_chunks(ds.spans))
+        elif k == "r":
+            ds.remove(op[1], op[2])
+            for x in range(op[1], op[1] + op[2]):
+                ref.pop(x, None)
+            outs.append(show_chunks(ds.spans))
+        elif k == "g":
+            got = ds.get(op[1], op[2])
+            if op[2] > 0 and got != want_get(op[1], op[2]):
+                ctx.violation("DataSpans.get differs from the offset->byte map", case,
+                              "dspans-get-" + ("spurious" if want_get(op[1], op[2]) is None else "missing" if got is None else "wrong-bytes"))
+            outs.append(show_opt(got))
+        elif k == "p":
+            got = ds.pop(op[1], op[2])
+            if op[2] > 0:
+                want = want_get(op[1], op[2])
+                if got != want:
+                    ctx.violation("DataSpans.pop result differs from the offset->byte map", case,
+                                  "dspans-pop-" + ("spurious" if want is None else "missing" if got is None else "wrong-bytes"))
+                if want is not None:
+                    for x in range(op[1], op[1] + op[2]):
+                        ref.pop(x, None)
+            outs.append(show_opt(got) + "/" + show_chunks(ds.spans))
+        elif k == "l":
+            n = ds.len()
+            if n != len(ref):
+                ctx.violation("DataSpans.len differs from the number of mapped offsets", case, "dspans-len")
+            if bool(ds) != bool(ref):
+                ctx.violation("bool(DataSpans) differs from non-emptiness of the map", case, "dspans-bool")
+            outs.append(str(n))
+        elif k == "s":
+            sp = ds.get_spans()
+            if set(sp.each()) != set(ref):
+                ctx.violation("DataSpans.get_spans differs from the domain of the map", case, "dspans-get-spans")
+            if list(ds._dump()) != sorted(ref):
+                ctx.violation("DataSpans._dump differs from the sorted domain of the map", case, "dspans-dump")
+            cp = DataSpans(ds)
+            if chunks_dict(cp.get_chunks())[0] != ref:
+                ctx.violation("DataSpans(other) copy differs from the map", case, "dspans-copy")
+            outs.append(show(sp._spans))
+        got_map, nbytes = chunks_dict(ds.get_chunks())
+        if got_map != ref or nbytes != len(ref):
+            ctx.violation("DataSpans content differs from the offset->byte reference (later writes win)", case,
+                          "dspans-content-" + k)
+        ctx.case(("D", before, repr(op)) if before != "-" else None)
+        ctx.count("dspans-op:" + k)
+    return ";".join(outs)
+
+
+def dline_of(ops):
+    toks = []
+    for op in ops:
+        if op[0] == "a":
+            toks.append("a:%d:%s" % (op[1], op[2] or "-"))
+        elif op[0] in "rgp":
+            toks.append("%s:%d:%d" % tuple(op[:3]))
+        else:
+            toks.append(op[0])
+    return "dspans " + " ".join(toks)
+
+
+# fixed corpus: boundary shapes of every branch (run first)
+SPANS_CORPUS = [
+    [("a", 5, 5), ("a", 10, 2), ("a", 3, 2), ("a", 20, 1), ("a", 0, 30), ("l",), ("c", 0, 30), ("c", 0, 31)],
+    [("a", 0, 10), ("r", 3, 4), ("r", 0, 3), ("r", 9, 5), ("r", 7, 2), ("l",), ("c", 7, 1)],
+    [("a", 0, 4), ("a", 6, 4), ("a", 12, 4), ("r", 2, 12), ("a", 4, 2), ("i", [(1, 2), (7, 20)], 1), ("l",)],
+    [("a", 10, 5), ("i", [], 0), ("a", 1, 1), ("i", [(0, 1)], 2), ("u", [(3, 3), (6, 1)], 3, "+"), ("m", [(4, 1)], 1, "-="),
+     ("u", [(0, 1)], 2, "+="), ("m", [(0, 100)], 0, "-"), ("l",)],
+    [("a", 0, 1), ("a", 2, 1), ("a", 4, 1), ("a", 1, 1), ("a", 3, 1), ("c", 0, 5), ("c", 0, 6), ("r", 2, 1), ("c", 0, 5)],
+]
+DSPANS_CORPUS = [
+    # A then loop end; A then C; A then B; C2; D2; E; B; exact replace; append
+    [("a", 10, "aabbcc"), ("a", 5, "0102"), ("a", 20, "ddeeff"), ("a", 8, "1112131415"), ("g", 5, 8), ("l",), ("s",)],
+    [("a", 10, "aabbccdd"), ("a", 11, "ee"), ("a", 10, "01"), ("a", 13, "0203"), ("a", 9, "ff"), ("g", 9, 6), ("p", 9, 6), ("l",)],
+    [("a", 0, "0000"), ("a", 4, "1111"), ("a", 10, "2222"), ("a", 2, "abcdefabcdefabcdefabcdef"), ("g", 0, 14), ("g", 0, 15)],
+    [("a", 0, "00112233445566778899"), ("r", 3, 4), ("r", 0, 1), ("r", 9, 5), ("r", 1, 2), ("r", 7, 2), ("l",), ("s",)],
+    [("a", 0, "0011"), ("a", 4, "2233"), ("a", 8, "4455"), ("r", 1, 8), ("g", 0, 1), ("g", 0, 2), ("g", 9, 1), ("p", 0, 0), ("g", 0, 0), ("g", 5, 0)],
+    [("a", 5, ""), ("a", 5, "aa"), ("a", 5, ""), ("p", 5, 1), ("p", 5, 1), ("l",), ("s",)],
+    [("a", 0, "aa"), ("a", 2, "bb"), ("a", 1, "cc"), ("a", 4, "dd"), ("a", 3, "ee"), ("g", 0, 5), ("p", 1, 3), ("g", 0, 1), ("g", 4, 1)],
+]
+
+
+def untuple(ops):
+    res = []
+    for x in ops:
+        y = []
+        for f in x:
+            if isinstance(f, list):
+                f = [tuple(p) for p in f]
+            y.append(f)
+        res.append(tuple(y))
+    return res
+
+
 def run(ctx):
-    n_hist = ctx.budget(150, 4000)
-    hists = []
+    shists, dhists = [], []
     if ctx.replay:
-        hists = [[tuple(x) if not isinstance(x[1], list) else (x[0], [tuple(y) for y in x[1]]) for x in ctx.replay["case"]["ops"]]]
+        c = ctx.replay["case"]
+        (dhists if c.get("kind") == "dspans" else shists).append(untuple(c["ops"]))
     else:
-        for i in range(n_hist):
-            hists.append(gen_history(ctx.rng, ctx.rng.choice([5, 20, 60, 200]), ctx.rng.choice([20, 60, 300])))
-    impl = [run_impl(ctx, h) for h in hists]
-    model = ctx.model([line_of(h) for h in hists])
-    ctx.compare("Spans history (internal _spans list after each op, query results)",
-                [{"ops": h} for h in hists], impl, model)
-    ctx.sample({"ops": hists[0][:8], "impl": impl[0][:200]})
+        shists = [list(h) for h in SPANS_CORPUS]
+        dhists = [list(h) for h in DSPANS_CORPUS]
+        lens = [5, 20, 60, 200] if ctx.tier != "thorough" else [5, 20, 60, 200, 600]
+        offs = [20, 60, 300] if ctx.tier != "thorough" else [12, 20, 60, 300, 1000]
+        for i in range(ctx.budget(150, 3000)):
+            shists.append(gen_history(ctx.rng, ctx.rng.choice(lens), ctx.rng.choice(offs)))
+        for i in range(ctx.budget(150, 3000)):
+            dhists.append(gen_dhistory(ctx.rng, ctx.rng.choice(lens), ctx.rng.choice(offs)))
+    simpl = [run_impl(ctx, h) for h in shists]
+    dimpl = [run_dimpl(ctx, h) for h in dhists]
+    model = ctx.model([line_of(h) for h in shists] + [dline_of(h) for h in dhists])
+    if model is not None:
+        ctx.compare("Spans history (internal _spans list after each op, query results)",
+                    [{"kind": "spans", "ops": h} for h in shists], simpl, model[:len(shists)])
+        ctx.compare("DataSpans history (internal spans list after each op, get/pop/len/get_spans results)",
+                    [{"kind": "dspans", "ops": h} for h in dhists], dimpl, model[len(shists):])
+    if shists:
+        ctx.sample({"spans-ops": shists[0][:8], "impl": simpl[0][:200]})
+    if dhists:
+        ctx.sample({"dspans-ops": dhists[0][:8], "impl": dimpl[0][:200]})
